@@ -63,6 +63,12 @@ def call_patterns(k, nparams, tier):
         [G(0), call("Sub", nparams, c), G(4), call("Sub", nparams, b, ("7", "0.5")), G(30)],
         [call("Sub", nparams, a), call("Sub", nparams, b), call("Sub", nparams, c)],
     ]
+    if nparams >= 1:
+        kwv = lambda e1, e2: ([("x", e1)] + ([("y", e2)] if nparams >= 2 else []))
+        loopcall = ("stmt", "Sub", [], kwv(V("i"), B("*", V("i"), N("2"))), [B("+", V("i"), N(j)) for j in range(k)], "sq" if k > 1 else "none")
+        pats.append([("for", "int", "i", ("range", 1, 4, None), [loopcall])])
+        pats.append([("decl", "float", "v", N("0.5")), ("stmt", "Sub", [], kwv(V("v"), B("-", V("v"), N("1"))), [N(m) for m in a], "sq" if k > 1 else "none"),
+                     ("decl", "float", "v", N("2.5")), ("stmt", "Sub", [], kwv(V("v"), B("-", V("v"), N("1"))), [N(m) for m in a], "sq" if k > 1 else "none")])
     if k == 1:
         pats.append([("for", "int", "i", ("range", 0, 3, None), [call("Sub", nparams, [V("i")])])])
         pats.append([("decl", "int", "n", N("6")), call("Sub", nparams, [B("+", V("n"), N("1"))]), call("Sub", nparams, [V("n")])])
